@@ -170,6 +170,30 @@ def run(tier):
                 if not ok:
                     ck.violation("gradient / cost-gradient entries routed to the component's own indices",
                                  {**ident, "class": cname, "want": wantg, "gradient": grad, "cost_gradient": cgrad}, site=f"{cname}.gradient")
+            # a whole-number parameter vector given as an INTEGER array, and a float array modified in place between calls
+            if np.all(theta == np.round(theta)):
+                ti = theta.astype(int)
+                for cname, obj in objs:
+                    with np.errstate(all="ignore"):
+                        vf, gf = float(obj(theta)), np.asarray(obj.gradient(theta), dtype=float)
+                        vi, gi = float(obj(ti)), np.asarray(obj.gradient(ti), dtype=float)
+                        ci_, cgi = float(obj.cost(ti)), np.asarray(obj.cost_gradient(ti), dtype=float)
+                    if not (vi == vf and np.array_equal(gi, gf) and ci_ == -vf and np.array_equal(cgi, -gf)):
+                        ck.violation("an integer-typed parameter vector gives the value and gradient of the equal float vector",
+                                     {**ident, "class": cname, "gradient_float": gf, "gradient_integer": gi}, site=f"{cname}.gradient:dtype")
+            for cname, obj in objs:
+                th_ = theta.copy()
+                with np.errstate(all="ignore"):
+                    v_a = float(obj(th_))
+                    th_ += 0.25
+                    v_b, g_b = float(obj(th_)), np.array(obj.gradient(th_), dtype=float)
+                    f_b, f_g = float(obj(th_.copy())), np.array(obj.gradient(th_.copy()), dtype=float)
+                    th_ -= 0.25
+                    v_c = float(obj(th_))
+                if not (v_b == f_b and np.array_equal(g_b, f_g) and v_c == v_a):
+                    ck.violation("value / gradient at the current content of a parameter array modified in place between calls",
+                                 {**ident, "class": cname, "after_change": v_b, "fresh_array": f_b, "first": v_a, "after_changing_back": v_c},
+                                 site=f"{cname}.__call__:stale-state")
             # bounds
             wantb = [tuple(None if x == "none" else fr(x) for x in b) for b in c["bounds"]]
             gotb = [tuple(None if x is None else float(x) for x in b) for b in joint.bounds]
@@ -233,7 +257,7 @@ def run(tier):
                     drawn.append(np.array(s, dtype=float))
                     return s
                 joint.sample = logged
-                ng, ns = 3, 7
+                ng, ns = (3, 7) if len(events) % 3 else (4, 4)        # also as many guesses as draws: all of them, still in increasing cost
                 guesses = post.generate_initial_guesses(n_guesses=ng, prior_samples=ns)
                 costs = [float(post.cost(s)) for s in drawn]
                 if len(set(costs)) == len(costs) and len(drawn) == ns:
